@@ -223,7 +223,7 @@ MODELLED = {
             "pkg/util/types.go"],
     "C17": ["pkg/parser/interface.go", "pkg/parser/parser.go", "pkg/util/ast.go"],
     "C18": F_RUNNER + ["pkg/logger/logger.go"],
-    "C19": ["pkg/option/"],
+    "C19": ["pkg/option/", "pkg/parser/comment.go:Parser.parseNotationInComments"],
 }
 
 RENDER = ["Convergen.Bridge.Render"]
